@@ -80,6 +80,17 @@ def fixed_cases():
     yield {'ops': [['regp', ['U', 'C']], ['regp', ['C']], ['print', 'C'], ['regn', 'B2'], ['print', 'D'], ['isreg', 'U', False, False, True]]}
     yield {'ops': [['regp', ['U']], ['regps', ['C']], ['print', 'C'], ['print', 'U'], ['regps', ['A']], ['print', 'A'], ['print', 'B']]}
     yield {'ops': [['regp', ['U', 'C']], ['regpp'], ['print', 'U'], ['regpp'], ['print', 'C']]}
+    # overlapping predicates: a value only the later one accepts is printed before a value both accept
+    names = ['A', 'B', 'C', 'B2', 'D', 'U', 'E', 'F']
+    for only_later in names:
+        for both in names:
+            if both == only_later:
+                continue
+            for third in (None, 'U', 'A'):
+                ops = [['regp', sorted({both, 'F'} - {only_later})], ['regp', sorted({both, only_later})]]
+                if third and third not in (both, only_later):
+                    ops.append(['regp', sorted({third, both})])
+                yield {'ops': ops + [['print', only_later], ['print', both], ['print', only_later], ['print', both], ['print', 'F']]}
     # one class registered three times (by class / by name in every order), printed at every point in between
     import itertools
     for kinds in itertools.product(('regc', 'regn'), repeat=3):
